@@ -236,6 +236,49 @@ class NP(object):
     def copy(self, a, **k):
         return _np.copy(a, **k)
 
+    def isclose(self, a, b, rtol=1e-05, atol=1e-08, equal_nan=False):
+        """|a - b| <= atol + rtol |b| element-wise; symbolic cells give
+        symbolic truth values (decided when used)"""
+        if not (_has_sym(a) or _has_sym(b)):
+            return _np.isclose(a, b, rtol=rtol, atol=atol,
+                               equal_nan=equal_nan)
+        aa = _np.asarray(a, dtype=object)
+        bb = _np.asarray(b, dtype=object)
+        aa, bb = _np.broadcast_arrays(aa, bb)
+        out = _np.empty(aa.shape, dtype=object)
+        for idx in _np.ndindex(*aa.shape):
+            x, y = Sym.lift(aa[idx]), Sym.lift(bb[idx])
+            d = abs(x - y)
+            out[idx] = d <= abs(y) * rtol + atol
+        return out if out.shape else out[()]
+
+    def allclose(self, a, b, rtol=1e-05, atol=1e-08, equal_nan=False):
+        if not (_has_sym(a) or _has_sym(b)):
+            return _np.allclose(a, b, rtol=rtol, atol=atol,
+                                equal_nan=equal_nan)
+        if _np.shape(a) != _np.shape(b):
+            try:
+                _np.broadcast(_np.asarray(a, dtype=object),
+                              _np.asarray(b, dtype=object))
+            except ValueError:
+                return False
+        r = self.isclose(a, b, rtol=rtol, atol=atol)
+        for e in _np.ravel(_np.asarray(r, dtype=object)):
+            if not bool(e):
+                return False
+        return True
+
+    def array_equal(self, a, b, **k):
+        if not (_has_sym(a) or _has_sym(b)):
+            return _np.array_equal(a, b, **k)
+        if _np.shape(a) != _np.shape(b):
+            return False
+        for x, y in zip(_np.ravel(_np.asarray(a, dtype=object)),
+                        _np.ravel(_np.asarray(b, dtype=object))):
+            if not bool(Sym.lift(x) == Sym.lift(y)):
+                return False
+        return True
+
     def unique(self, ar, return_index=False, return_inverse=False,
                return_counts=False, axis=None, **k):
         """np.unique for symbolic payloads (NumPy rejects ``axis`` for object
